@@ -44,6 +44,14 @@ async def debounced_sorted_prefix(
             # item is T after checking != "__COMPLETE__"
             actual_item = cast(T, item)
             if debouncer.is_complete:
+                # The window may have closed without the completion marker
+                # having been consumed yet: flush the sorted burst first so a
+                # later item is never yielded ahead of it.
+                if buffer:
+                    buffer.sort(key=key)
+                    for buffered_item in buffer:
+                        yield buffered_item
+                    buffer = []
                 yield actual_item
             else:
                 debouncer.extend_window()
